@@ -27,7 +27,9 @@ MANDATORY = ["CNB_BUILDPACK_DIR", "CNB_TARGET_OS", "CNB_TARGET_ARCH", "CNB_TARGE
 SBOM_EXT = {"CycloneDxJson": "cdx", "SpdxJson": "spdx", "SyftJson": "syft"}
 SUPPORTED = z3.Concat(z3.Plus(z3.Re("0")), z3.Re("."), z3.Star(z3.Re("0")), z3.Re("10"))      # every spelling that denotes 0.10
 API_FORMS = ["major.minor", "major", "", "abc", "0.10.1", "+0.10", "0.+10", "1.", ".10", "0,10", " 0.10", "00.010", "0.10 "]
-EXES = ["detect", "build", "/cnb/buildpacks/x/bin/detect", "bin/build", "launcher", ""]
+EXES = ["detect", "build", "/cnb/buildpacks/x/bin/detect", "bin/build", "launcher", "",
+        # near misses of the two names (round 3): same stem with an extension, a longer name ending in the phase name, the name as a directory component
+        "bin/detect.exe", "build.bak", "xdetect", "build/launcher"]
 
 
 def prepare(run):
@@ -137,7 +139,8 @@ def main(run):
         w = ctx.world
         ctx.calls, ctx.olds = [], {}
         exe = EXES[ctx.choose([True] * len(EXES), "argv0")]
-        phase = "detect" if exe.endswith("detect") else ("build" if exe.endswith("build") else None)
+        base = exe.rsplit("/", 1)[-1]          # the statement: the phase is chosen by the executable's file name, exactly `detect` or `build`
+        phase = base if base in ("detect", "build") else None
         right = {"detect": 2, "build": 3}.get(phase)
         counts = [0, 1, 2, 3, 4] if phase else [2, 3]
         nargs = counts[ctx.choose([True] * len(counts), "argc")]
@@ -294,6 +297,8 @@ def oracle(ctx, code):
     if code == "returned":
         out.append(("runtime-returned", "libcnb_runtime returned instead of exiting", True))
         return out
+    if reached and phase is None:
+        return out          # buildpack code ran under a name that selects no phase: reported above; there is no expected output set to compare
     if len([c for c in calls if c == "on_error"]) > 1 or len(reached) > 1:
         out.append(("called-twice", f"calls {calls}", True))
     # supported api spelled canonically + everything present => the gate lets the phase run
